@@ -153,6 +153,12 @@ def build_inferred_module(rng, gated: set, idx: int, n: int):
             lines.append(src + "\n\n")
             gt[name] = {"kind": "inferred", "positions": expected, "features": sorted(bg.features), "src": src}
         j += 1
+    # a result that only the docstring knows (interface stub without return statement): what the tool makes of it is not
+    # judged, but it must stay with this function - the functions without any result that follow are judged
+    lines.append(f'def docres{idx}(n: int = 0):\n    """Doc.\n\n    Returns\n    -------\n    shown_{idx} : int\n        Only the docstring tells.\n    """\n    raise NotImplementedError\n\n\n')
+    gt[f"docres{idx}"] = {"kind": "not-judged", "src": "docstring-only result"}
+    lines.append(f"class NoRes{idx}:\n    def __init__(self, n: int = 0):\n        self.n = n\n\n    def touch(self, n: int = 0):\n        pass\n\n\n")
+    gt[f"NoRes{idx}/touch"] = {"kind": "no-results", "src": "pass"}
     # no inferable return at all
     for k, body in enumerate(["    pass\n", "    n += 1\n", "    return helper_call()\n", "    x = 1\n    return obj.attribute.method()\n"]):
         name = f"noinf{idx}_{k}"
@@ -265,6 +271,8 @@ def make_judge(chk: Check):
                     if len(got) == len(exp) and [r.name for r in d.results] != want_names:
                         viols.append(Viol("result-names", f"{where}:{'docstring' if g['names'] else 'default'}", {"decl": d.path(), "expected": want_names, "stub": [r.name for r in d.results]}))
                     chk.case_ok(f"{where}:{'named' if g['names'] else 'unnamed'}:{g['anno'].split('[')[0]}", ident=(case.cid, d.path()))
+                elif g["kind"] == "not-judged":
+                    chk.counters["docstring_only_result_not_judged"] += 1
                 elif g["kind"] == "no-results":
                     if d.results:
                         viols.append(Viol("results-without-inferable-return", "no-results", {"decl": d.path(), "stub": [r.type.render() if r.type else None for r in d.results]}))
